@@ -1,5 +1,4 @@
 use crate::delta::{DiffType, Source, State, StateMachine};
-use crate::utils::path::relativize_path_maybe;
 
 impl StateMachine<'_> {
     #[inline]
@@ -38,12 +37,11 @@ impl StateMachine<'_> {
                 return self.handle_additional_cases(State::DiffHeader(DiffType::Unified));
             }
 
+            // (the names were made relative, if asked for, when they were taken from the diff line)
             if self.minus_file != "/dev/null" {
-                relativize_path_maybe(&mut self.minus_file, self.config);
                 self.minus_file.push_str(" (binary file)");
             }
             if self.plus_file != "/dev/null" {
-                relativize_path_maybe(&mut self.plus_file, self.config);
                 self.plus_file.push_str(" (binary file)");
             }
             return Ok(true);
